@@ -322,26 +322,26 @@ def check(run):
     symf.build(run)
     quick = core.tier() == "quick"
     jobs = []
-    pools = (1, 2, 4, 16)
+    pools = (1, 2, 3, 4, 5, 16)       # 3 and 5: chunk boundaries of `parallelize` that are not multiples of any power of two (added after seeded C12-b)
     for logn in range(1, 7):
-        for t in pools:
+        for t in ((1, 2, 3, 16) if quick else pools):
             jobs.append((check_fft, (logn, t)))
     dom = [(1, 3), (2, 2), (3, 3), (4, 5), (3, 9)] if quick else [(1, 3), (2, 2), (2, 4), (3, 3), (3, 5), (4, 3), (4, 5), (3, 9), (4, 4)]
     for k, j in dom:
-        for t in ((1, 4) if quick else pools):
+        for t in ((1, 3, 4) if quick else pools):
             jobs.append((check_domain, (k, j, t)))
     for k in (1, 2, 3, 4):
         jobs.append((check_lrange, (k,)))
     for deg in (1, 4, 8):
-        for t in pools:
+        for t in ((1, 3, 4) if quick else pools):
             jobs.append((check_kate, (deg, t)))
     for m in (1, 2, 3, 4):
         jobs.append((check_interp, (m, 1 + core.seed())))
     if getattr(run, "only", None):
         jobs = [j for j in jobs if run.only in j[0].__name__] or jobs
-    run.bounds.append("C12/S: best_fft n = 2..64 x pools {1,2,4,16}; EvaluationDomain k <= 4, extended length <= 64; "
+    run.bounds.append("C12/S: best_fft n = 2..64 x pools {1,2,3,4,5,16} (quick: a subset); EvaluationDomain k <= 4, extended length <= 64; "
                       "l_i_range k <= 4 indices -n-2..2n+1; kate/eval degree <= 8; lagrange_interpolate <= 4 points")
-    run.outside += ["C12/S: MSM (engine K), g_to_lagrange, sizes beyond 64 (LinF has 64 variables), thread schedules other than pool sizes {1,2,4,16}",
+    run.outside += ["C12/S: MSM (engine K), g_to_lagrange, sizes beyond 64 (LinF has 64 variables), thread schedules other than pool sizes {1,2,3,4,5,16}",
                     "C12/S: lagrange_interpolate with symbolic points (points are concrete, values symbolic)",
                     "C12/S: Polynomial::rotate with |rotation| > n (slice::rotate_left panics; precondition, the function is only used by tests)"]
     run.translator_validation.append("S/C12: every matrix comparison carries a twin with one coefficient perturbed that must be sat; "
